@@ -1140,6 +1140,27 @@ def k_equal_isneg(base, chk):
     k.settle(replay_neg)
 
 
+def _setwide_replay(models, seed):
+    from . import native, ref
+    import random
+    rng = random.Random(seed)
+    cands = []
+    for m in models:
+        if "x" in m:
+            cands.append(bytes(int(b) & 255 for b in m["x"]).hex())
+    cands += ["ff" * 64, "00" * 64, "00" * 31 + "80" + "00" * 32, "00" * 63 + "80", "ff" * 32 + "00" * 32, "00" * 32 + "ff" * 32]
+    cands += [bytes(rng.randrange(256) for _ in range(64)).hex() for _ in range(40)]
+    res = native.run_ops("field", [{"op": "SetWideBytes", "args": ["v", "x"], "init": {"v": "7,7,7,7,7", "x": "hex:" + c}} for c in cands])
+    for c, r in zip(cands, res):
+        want = int.from_bytes(bytes.fromhex(c), "little") % P
+        o = ref.parse_limbs(r["slots"]["v"])
+        if r.get("err") or ref.fe_val(o) % P != want:
+            return dict(what="SetWideBytes(%s) value %d, expected %d" % (c, ref.fe_val(o) % P, want), op="SetWideBytes", inputs=dict(x=c))
+        if any(x > B for x in o):
+            return dict(what="SetWideBytes output limb above invariant", op="SetWideBytes", inputs=dict(x=c))
+    return None
+
+
 def k_setwide(base, chk):
     fname = base.prog.find("Element).SetWideBytes")
     k = LFK(base, chk, fname)
@@ -1165,6 +1186,13 @@ def k_setwide(base, chk):
     oid = k.ex.new_obj(k.path, ("array", 104, base.prog.T("uint8")), init=list(bs) + [0xEE] * 40)
     v, _ = k.out_elem()
     paths = k.run([v, X.SliceV(oid, (), 0, 64, 104)])
+    if len(paths) != 1 or paths[0].outcome[0] != "ret":
+        ob = Ob("SetWideBytes: one returning path on 64 bytes", "sat", 0, [fname], "Int-LF", detail=str([q_.outcome for q_ in paths][:2]))
+        chk.add(ob)
+        k.sat_obs.append(ob)
+        k.replay = _setwide_replay
+        k.settle()
+        return
     (p,) = paths
     out = k.limbs(p, v)
     k.goal(p, "congr", "value = 512-bit little-endian input mod p", fval(out), bval(bs), P)
